@@ -857,6 +857,10 @@ func (x *c18StepCtx) judgeOnce() []*evid.Violation {
 			// a digest tag is also written as a side effect of the digestTags feature while another tag is copied
 			// (ImageCopy has no notion of backups): not judged, like the other digest-tag clauses
 			x.Labels["exempt:digest-tag-backup"]++
+			if bk, ok := c18BackupKey(c18EvalBackup(e.Opt.Backup, x.Names.name(k.Host), k.Repo, k.Tag, e.Type), k, x.Names); ok {
+				p.ExemptKeys[bk] = true // written when the tag's own step, not the side effect, got there first
+				backupRepos[[2]string{bk.Host, bk.Repo}] = true
+			}
 		} else if hadP && Q != P && len(e.Opt.Backup) > 0 {
 			s := c18EvalBackup(e.Opt.Backup, x.Names.name(k.Host), k.Repo, k.Tag, e.Type)
 			bk, ok := c18BackupKey(s, k, x.Names)
